@@ -172,6 +172,8 @@ pub struct ScriptInfo {
     pub op_sub: Vec<Option<(u8, u32)>>,             // per op: (ch, idx)
     pub by_content: [HashMap<Vec<u8>, usize>; 2],   // sender side -> payload -> op index
     pub by_tag: [HashMap<(u8, u32), usize>; 2],
+    /// op indices per (round, side), in script order
+    pub by_round: HashMap<(usize, usize), Vec<usize>>,
     pub name: String,
 }
 
@@ -195,7 +197,9 @@ impl ScriptInfo {
             }
         }
         let name = script_name(&ops);
-        Self { ops, payloads, op_sub, by_content, by_tag, name }
+        let mut by_round: HashMap<(usize, usize), Vec<usize>> = HashMap::new();
+        for (i, o) in ops.iter().enumerate() { by_round.entry((o.round, o.side)).or_default().push(i); }
+        Self { ops, payloads, op_sub, by_content, by_tag, by_round, name }
     }
 }
 
@@ -254,7 +258,7 @@ pub fn run_lw(cfg: &LwCfg, si: &ScriptInfo, env: &LwEnv, ch: &mut Chooser, mut i
             let stepped = !((skip == 1 && side == 1) || (skip == 2 && side == 0)) && round % cfg.step_every[side].max(1) == 0;
             // application operations scheduled for this round happen before the step
             let mut extra_flush = 0;
-            for (i, op) in si.ops.iter().enumerate().filter(|(_, o)| o.round == round && o.side == side) {
+            for (i, op) in si.by_round.get(&(round, side)).map(|v| v.as_slice()).unwrap_or(&[]).iter().map(|&i| (i, &si.ops[i])) {
                 match op.kind {
                     OpKind::Send { ch: c, mode, size } => {
                         let (cc, idx) = si.op_sub[i].unwrap();
@@ -404,20 +408,22 @@ pub fn oracle_c01(si: &ScriptInfo, tr: &Trace) -> Option<Violation> {
 pub fn oracle_c02_safety(si: &ScriptInfo, tr: &Trace) -> Option<Violation> {
     for side in 0..2 { // receiver side
         let sender = 1 - side;
-        let mut delivered: Vec<usize> = Vec::new();
+        // per channel: the submission indices of its Reliable packets in order, and how many of the oldest of them are delivered
+        let mut rel: HashMap<u8, Vec<u32>> = HashMap::new();
+        for (i, o) in si.ops.iter().enumerate().filter(|(_, o)| o.side == sender) { if let OpKind::Send { mode: SendMode::Reliable, .. } = o.kind { let (chn, idx) = si.op_sub[i].unwrap(); rel.entry(chn).or_default().push(idx); } }
+        for v in rel.values_mut() { v.sort(); }
+        let mut pos: HashMap<u8, usize> = HashMap::new();
+        let mut done: std::collections::HashSet<(u8, u32)> = Default::default();
         for d in tr.dels.iter().filter(|d| d.side == side) {
             if let Some(op) = d.sub {
                 let (chn, idx) = si.op_sub[op].unwrap();
+                let r = rel.get(&chn).map(|v| v.as_slice()).unwrap_or(&[]);
+                let p = pos.entry(chn).or_insert(0);
                 // every earlier Reliable packet of this channel must already be delivered
-                for j in 0..idx {
-                    let opj = si.by_tag[sender][&(chn, j)];
-                    if let OpKind::Send { mode: SendMode::Reliable, .. } = si.ops[opj].kind {
-                        if !delivered.contains(&opj) {
-                            return Some(viol("C02.skip", "C02.skip".into(), format!("side {} received ch{} #{} (round {}) although Reliable ch{} #{} had not been delivered", side, chn, idx, d.round, chn, j)));
-                        }
-                    }
+                if *p < r.len() && r[*p] < idx {
+                    return Some(viol("C02.skip", "C02.skip".into(), format!("side {} received ch{} #{} (round {}) although Reliable ch{} #{} had not been delivered", side, chn, idx, d.round, chn, r[*p])));
                 }
-                delivered.push(op);
+                if let OpKind::Send { mode: SendMode::Reliable, .. } = si.ops[op].kind { done.insert((chn, idx)); while *p < r.len() && done.contains(&(chn, r[*p])) { *p += 1; } }
             }
         }
     }
@@ -498,6 +504,17 @@ pub fn starved_by_own_acks(tr: &Trace, side: usize, probe_round: usize) -> Optio
 /// earlier Reliable packets have been delivered too (no permanent stall).
 pub fn oracle_c11(si: &ScriptInfo, tr: &Trace, probe_round: usize) -> Vec<Violation> {
     let mut out = Vec::new();
+    // "the receiver ... always answers with an ack": an endpoint that was handed a sync frame owes an acknowledgement frame, and
+    // acknowledgements go first - so the first later round in which it transmits anything at all has an acknowledgement frame in it
+    // (until then its send allocation may keep it silent; that is the liveness clauses' business)
+    for rx in tr.rxs.iter().filter(|r| r.parsed && matches!(tr.ems[r.em].frame, Some(Frame::SyncFrame(_)))) {
+        if let Some(first) = tr.ems.iter().filter(|e| e.side == rx.side && e.round > rx.round).map(|e| e.round).min() {
+            if !tr.ems.iter().any(|e| e.side == rx.side && e.round == first && matches!(e.frame, Some(Frame::AckFrame(_)))) {
+                out.push(viol("C11.sync-reply", "C11.sync-reply:forgotten".into(), format!("side {} was handed a sync frame in round {} (t={} ms); the next round in which it transmitted anything was round {} and there was no acknowledgement frame among what it sent: the reply to the sync frame was forgotten, the sender's windows stay where they are", rx.side, rx.round, rx.t_ms, first)));
+                break;
+            }
+        }
+    }
     let what = format!("fault: blackout {:?} shift {:?}, last deviation in round {}", tr.blackout, tr.shift, tr.last_dev_round);
     let last = tr.obs.last().unwrap();
     for side in 0..2 {
